@@ -121,6 +121,12 @@ class AwObj:
         return self.fn()
 
 
+def _same(returned, given, ent, log):
+    """push / callback hand their argument back unchanged (they are usable as decorators)"""
+    if returned is not given:
+        ent.reg_problem = "registering entry %d (%s) returned %r instead of its argument" % (ent.id, ent.kind, type(returned).__name__)
+
+
 def register(stack, ent, log, std=False):
     """register ent on an asyncstdlib ExitStack (std=False) or a contextlib.AsyncExitStack (std=True)"""
     k = ent.kind
@@ -137,39 +143,39 @@ def register(stack, ent, log, std=False):
         # a plain function handing back an awaitable object that is not a coroutine: still an asynchronous exit
         def ex(et, ev, tb):
             return AwObj(lambda: ent.act(log, ev))
-        (stack.push_async_exit if std else stack.push)(ex)
+        _same((stack.push_async_exit if std else stack.push)(ex), ex, ent, log)
         return None
     if k == "apush":
         async def ex(et, ev, tb):
             return ent.act(log, ev)
-        (stack.push_async_exit if std else stack.push)(ex)
+        _same((stack.push_async_exit if std else stack.push)(ex), ex, ent, log)
         return None
     if k == "spush":
         def ex(et, ev, tb):
             return ent.act(log, ev)
-        stack.push(ex)
+        _same(stack.push(ex), ex, ent, log)
         return None
     if k == "cmpush":
         cm = ent.as_acm(log)
-        (stack.push_async_exit if std else stack.push)(cm)
+        _same((stack.push_async_exit if std else stack.push)(cm), cm, ent, log)
         return None
     if k == "acb" and ent.id % 3 == 0:
         def cb(x, kw=None):
             assert x == ent.id and kw == "kw"
             return AwObj(lambda: ent.act(log, None_marker(log)))
-        (stack.push_async_callback if std else stack.callback)(cb, ent.id, kw="kw")
+        _same((stack.push_async_callback if std else stack.callback)(cb, ent.id, kw="kw"), cb, ent, log)
         return None
     if k == "acb":
         async def cb(x, kw=None):
             assert x == ent.id and kw == "kw"
             return ent.act(log, None_marker(log))
-        (stack.push_async_callback if std else stack.callback)(cb, ent.id, kw="kw")
+        _same((stack.push_async_callback if std else stack.callback)(cb, ent.id, kw="kw"), cb, ent, log)
         return None
     if k == "scb":
         def cb(x, kw=None):
             assert x == ent.id and kw == "kw"
             return ent.act(log, None_marker(log))
-        stack.callback(cb, ent.id, kw="kw")
+        _same(stack.callback(cb, ent.id, kw="kw"), cb, ent, log)
         return None
     raise ValueError(k)
 
@@ -211,6 +217,10 @@ def run_history(ops, std):
         for op in ops:
             if op[0] == "reg":
                 r = register(stacks[op[1]], op[2], log, std)
+                if getattr(op[2], "reg_problem", None):
+                    obs.append(("error", op[2].reg_problem))
+                    op[2].reg_problem = None
+                    continue
                 if r is not None:
                     v = await r
                     if op[2].kind in ("acm", "scm") and v != op[2].id:
@@ -266,6 +276,73 @@ async def nested_with(entries, block, log):
             cm = ent.as_acm(log)
         async with cm:
             await nested_with(entries[1:], block, log)
+
+
+class _Tick:
+    def __await__(self):
+        yield "tick"
+
+
+class Cancel(EB):
+    """what an event loop throws into the task at a suspension point"""
+
+
+def cancellation_stage(rep, rng, n):
+    """every exit suspends once before it acts; an exception is thrown into the task at each suspension point in turn
+    (while the stack unwinds after a normal or a failed block, or under aclose): outcome and the log of exits -- who ran,
+    with which exception in flight -- are those of the equivalent nested `async with` statements under the same throw"""
+    from gencalc import drive_tokens
+
+    def mk_cm(ent, log):
+        class CM:
+            async def __aenter__(s):
+                return ent.id
+
+            async def __aexit__(s, et, ev, tb):
+                await _Tick()
+                return ent.act(log, ev)
+        return CM()
+
+    async def via_stack(ents, block, log):
+        async with a.ExitStack() as st:
+            for e in ents:
+                await st.enter_context(mk_cm(e, log))
+            if block is not None:
+                raise E(block)
+
+    async def via_nested(ents, block, log):
+        if not ents:
+            if block is not None:
+                raise E(block)
+            return
+        async with mk_cm(ents[0], log):
+            await via_nested(ents[1:], block, log)
+
+    def outcome(coro_fn, ents, block, k):
+        log = []
+        try:
+            drive_tokens(coro_fn(ents, block, log), k, Cancel(7777) if k is not None else None)
+            out = ("normal",)
+        except (E, EB) as e:
+            out = ("raises", e.id)
+        except BaseException as e:  # noqa
+            out = ("other", type(e).__name__)
+        return out, log
+    bad = 0
+    for _ in range(n):
+        ents = [Entry(i + 1, "acm", rng.choice(["falsy", "falsy", "truthy", "raise"]), rng.choice(["falsy", "falsy", "truthy", "raise"])) for i in range(rng.randrange(1, 4))]
+        block = rng.choice([None, None, 5])
+        for k in [None] + list(range(len(ents))):
+            got, want = outcome(via_stack, ents, block, k), outcome(via_nested, ents, block, k)
+            rep.count(("cancel-unwind", tuple((e.on_none, e.on_exc) for e in ents), block, k), len(ents) > 1)
+            if got != want:
+                bad += 1
+                rep.violation("exitstack:cancellation", {"entries": [(e.id, e.on_none, e.on_exc) for e in ents], "block": block, "throw_at_suspension": k,
+                                                         "why": "ExitStack: %r, nested async with: %r" % (got, want)})
+                break
+        if bad:
+            break
+    return bad
 
 
 def run_nested(entries, block):
@@ -451,6 +528,7 @@ def run(tier, seed):
     rep.notes["stacks_vs_nested_with"] = len(stacks)
     import kwprobe
     kwprobe.probe(rep, "callback", "exitstack:kwargs")
+    cancellation_stage(rep, rng, 60 if tier == "quick" else 2000)
     if not proofs_ok:
         rep.violation("proof-broken", {"broken": rep.notes.get("broken_file", "?"), "log": rep.notes.get("build_log_tail", "")[-1500:]}, no_input=True)
     return rep.finish()
